@@ -1140,6 +1140,12 @@ def stuck_report(ver, case, obs):
 
 
 SEEDS = [
+    # a chunk send parked on write back-pressure while the window is FULL (the streamed publish itself, or other
+    # packets, hold every slot): it must resume when back-pressure lifts
+    "1,0;1,1,7,0,10;8,1;13,1,4;8,0;13,1,0;13,1,6;4,1,1;2,1",
+    "2,0;1,1,1,0;1,2,7,0,10;8,1;13,2,4;8,0;13,2,0;13,2,6",
+    "2,0;1,1,7,0,10;1,2,2,0;8,1;13,1,5;8,0;13,1,0;13,1,5;4,1,1;4,2,2",
+    "1,0;8,1;1,1,7,0,6;8,0;2,1;8,1;13,1,3;8,0;13,1,0;13,1,3",
     # window race: waiter woken by an ack, a fresh sender slips in before it resumes
     "1,0;1,1,1,0;1,2,1,0;4,1,1;1,3,1,0;2,2;2,1;4,1,2;2,3;2,2;4,1,3;2,2",
     # Q: woken waiter dropped before it resumes
